@@ -773,6 +773,35 @@ func (g *gen) txnOp() TxnOp {
 func (g *gen) next() Cmd {
 	g.idx += uint64(1 + g.rng.Intn(3))
 	c := Cmd{Idx: g.idx}
+	// targeted shapes (a session that holds SEVERAL keys, with and without a lock delay, and ends):
+	// one session locks two or three keys in one transaction; a session holding two or more keys is
+	// destroyed.  Left to chance these are rare (four sessions, six keys, one lock per command).
+	if live := g.liveSessions(); len(live) > 0 {
+		switch g.rng.Intn(28) {
+		case 0, 1:
+			sid := live[g.rng.Intn(len(live))]
+			c.Kind = "txn"
+			perm := g.rng.Perm(len(keys))
+			for _, ki := range perm[:2+g.rng.Intn(2)] {
+				c.Ops = append(c.Ops, TxnOp{Kind: "kv", Verb: "lock", KV: &KVReq{Key: keys[ki], Value: "01", Session: sid}})
+			}
+			return c
+		case 2:
+			held := map[string]int{}
+			_, ents, _ := g.im.store().KVSList(nil, "", nil)
+			for _, e := range ents {
+				if e.Session != "" {
+					held[e.Session]++
+				}
+			}
+			for _, sid := range live {
+				if held[sid] >= 2 {
+					c.Kind, c.Sid = "session_destroy", sid
+					return c
+				}
+			}
+		}
+	}
 	weights := map[string][]int{
 		//            kvs sess+ sess- reg dereg txn reap q+ q-
 		"kv":      {50, 6, 4, 8, 3, 14, 4, 1, 1},
@@ -1580,7 +1609,16 @@ func runHistory(id int, seed int64, mix string, n int, script []Cmd) History {
 				}
 			}
 			if len(res.Errors) == 0 {
-				if failed {
+				mixed := false
+				for _, op := range c.Ops {
+					if op.Kind != "kv" {
+						mixed = true
+					}
+				}
+				// (in a mixed transaction a KV verb may rightly succeed on a state an earlier node,
+				// check or session verb of the same transaction produced, e.g. a delete-cas of a key
+				// that the end of its holder's session has just deleted)
+				if failed && !mixed {
 					h.Oracle = append(h.Oracle, fmt.Sprintf("step %d: C03:txn-succeeded-but-reference-op-failed", i))
 				}
 				ref = trial
